@@ -39,6 +39,11 @@ theorem obl_abort_terminates :
 /-- every other handle kind's clone path touches no atomic itself and reaches `Arc::clone` -/
 def funnelsOk : Bool := Generated.funnels.all (fun f => f.ownAtomics == 0 && f.reaches)
 theorem obl_funnels : funnelsOk = true := by decide
+/-- … and the table does cover every clone entry point that is not `Arc::clone` itself -/
+def cloneFunnelsPresent : Bool :=
+  ["ThinArc::clone", "OffsetArc::clone", "OffsetArc::clone_arc", "ArcBorrow::clone_arc", "ArcUnion::clone"].all
+    (fun n => Generated.funnels.any (fun f => f.name == n))
+theorem obl_clone_funnels_present : cloneFunnelsPresent = true := by decide
 /-- census: exactly one non-debug `fetch_add` in the crate, and it is the one in `Arc::clone`;
 no unattributed write / RMW site -/
 def censusOk : Bool :=
